@@ -170,8 +170,8 @@ Print Assumptions C10_no_abort.
 (* the tie facts the proofs above rest on, re-proved from the scraped source on every run *)
 Theorem C10_repaired_code_facts :
   FINALIZE_BIT <> ROOT_BIT /\ AUTO_LEAF_ON_REGISTER = false /\ SCAN_SIZE_TEST = true /\ RESIZE_BEFORE_STEP = true /\
-  (2 <= DESTROY_SWEEPS)%nat /\ STACKTOP_RESET_BEFORE_ERROR_RETURN = true.
-Proof. exact (conj FINALIZE_not_ROOT (conj auto_leaf_off (conj scan_size_test_on (conj resize_before_step (conj destroy_resweeps stacktop_reset))))). Qed.
+  (2 <= DESTROY_SWEEPS)%nat /\ STACKTOP_RESET_BEFORE_ERROR_RETURN = true /\ CORO_REGISTERED_WITH_CORO_SIZE = true.
+Proof. exact (conj FINALIZE_not_ROOT (conj auto_leaf_off (conj scan_size_test_on (conj resize_before_step (conj destroy_resweeps (conj stacktop_reset coro_registered_whole)))))). Qed.
 Print Assumptions C10_repaired_code_facts.
 
 (* ONE frame theorem for every command of every history (all twelve commands; the only exception
